@@ -36,22 +36,25 @@ def scatter(chk, P):
     fs = [f for f in P.all_fns() if f.name.endswith("SimbodyMatterSubsystemRep::calcTreeAccelerations")]
     if not chk.shape(len(fs) == 1, "SCATTER", "calcTreeAccelerations:found", "", "%d" % len(fs)):
         return
-    f = fs[0]
-    loops = f.loops()
-    first_sweep = [e for _, _, e in f.calls() if str(e.get("fn", "")).endswith("::calcUDotPass1Inward")]
+    f0 = fs[0]
+    first_sweep = [e for _, _, e in f0.calls() if str(e.get("fn", "")).endswith("::calcUDotPass1Inward")]
+    # the operator itself and its local lambdas (the scatter extracted into `auto scatterKnownUDots = [&](Real* udot) {..}` is placed where it is called)
+    parts = [f0] + [g for g in P.all_fns() if g.d.get("parent") == f0.id and g.blocks]
     for lst, want in (("presUDot", "pool"), ("zeroUDot", "0")):
         hit = None
-        for h, body in loops.items():
-            iv, c = _loop_var(f, h)
-            if not iv or not isinstance(c, list) or c[1] != "<":
-                continue
-            ws = [e for b in body for e in f.blocks[b]["ev"] if ev_write(e) and ev_write(e)[1] == "=" and
-                  bool(sx_find(ev_write(e)[0], lambda y: y[0] == "mem" and y[2].endswith("::" + lst)))]
-            if ws:
-                hit = (h, body, iv, c, ws[0])
-        if not chk.shape(hit is not None, "SCATTER", lst + ":loop", f.loc, "a loop writes udot[ic.%s[i]]" % lst):
+        for f in parts:
+            loops = f.loops()
+            for h, body in loops.items():
+                iv, c = _loop_var(f, h)
+                if not iv or not isinstance(c, list) or c[1] != "<":
+                    continue
+                ws = [e for b in body for e in f.blocks[b]["ev"] if ev_write(e) and ev_write(e)[1] == "=" and
+                      bool(sx_find(ev_write(e)[0], lambda y: y[0] == "mem" and y[2].endswith("::" + lst)))]
+                if ws:
+                    hit = (f, h, body, iv, c, ws[0])
+        if not chk.shape(hit is not None, "SCATTER", lst + ":loop", f0.loc, "a loop writes udot[ic.%s[i]]" % lst):
             continue
-        h, body, iv, c, w = hit
+        f, h, body, iv, c, w = hit
         d0 = [d for _, _, d in f.events(lambda q: q["k"] == "decl" and q["var"] == iv)]
         ok0 = any(_lit(d.get("init"), ("0",)) for d in d0) and _steps(f, body, iv) == ["++"]
         # the bound is the length of THIS list: list.size(), the instance cache's getTotalNum<List>(), or (prescribed) the equally long pool handed in
@@ -65,7 +68,7 @@ def scatter(chk, P):
         getter = "getTotalNum" + lst[0].upper() + lst[1:]
         bound_ok = bool(sx_find(bound, lambda y: y[0] == "mem" and y[2].endswith("::" + lst))) or \
             bool(sx_find(bound, lambda y: y[0] == "call" and y[1].split("::")[-1] == getter)) or \
-            (lst == "presUDot" and bool(sx_find(bound, lambda y: y[0] == "call" and y[1].endswith("::size") and var_of(y[2]) in [p_[0] for p_ in f.d["params"]])))
+            (lst == "presUDot" and bool(sx_find(bound, lambda y: y[0] == "call" and y[1].endswith("::size") and var_of(y[2]) in [p_[0] for p_ in f0.d["params"]])))
         chk.judge(ok0 and bound_ok, "SCATTER", lst + ":whole-list", "%s:%d" % (f.file, w["line"]),
                   "loop %s from 0 while %s (bound %s), step %s: the bound must be the length of %s itself" % (iv, sx_str(c), sx_str(bound)[:60], _steps(f, body, iv), lst))
         lhs, rhs = ev_write(w)[0], ev_write(w)[2]
@@ -78,9 +81,14 @@ def scatter(chk, P):
         chk.judge(okidx and okv, "SCATTER", lst + ":udot[list[i]]=" + ("presUDots[i]" if want == "pool" else "0"), "%s:%d" % (f.file, w["line"]), "%s = %s" % (sx_str(lhs), sx_str(rhs)))
         # before the inward pass
         if first_sweep:
-            p_ = f.path_exists(None, lambda q: q is first_sweep[0], lambda q: q is w, lift=0)
             # (the loop body may execute zero times: require the loop header on every path instead)
-            byp = f.path_exists(None, lambda q: q is first_sweep[0], lambda q: False, avoid_blocks={h}, lift=0)
+            if f is f0:
+                byp = f.path_exists(None, lambda q: q is first_sweep[0], lambda q: False, avoid_blocks={h}, lift=0)
+            else:
+                cs = [q for _, _, q in f0.calls() if q.get("fid") == f.id]
+                byp = f0.path_exists(None, lambda q: q is first_sweep[0], lambda q: any(q is c_ for c_ in cs), lift=0)
+                if byp is None:
+                    byp = f.path_exists(None, "exit", lambda q: False, avoid_blocks={h}, lift=0)
             chk.judge(byp is None, "SCATTER", lst + ":before-the-inward-pass", "%s:%d" % (f.file, w["line"]), "the inward pass is reached without passing the %s loop" % lst, byp)
 
 
